@@ -3,6 +3,7 @@
 import ast
 from fractions import Fraction
 
+from .. import AnalysisError
 from ..canon import canon, single_assignments
 from ..deg import DegChecker, TOP
 from ..pm import src
@@ -19,58 +20,127 @@ def stmts_in_order(node):
 def run(ctx):
     prog = ctx.prog
     f = ctx.fn("nessai.posterior:draw_posterior_samples")
-    fa = FA(f)
     ns = f.params()[0]
-    rets = [fa.stmt(r) for r in fa.find(lambda s: isinstance(s, ast.Return))]
-    pair = [match_stmt("return $$S, $$I", r) for r in rets]
-    pair = [b for b in pair if b is not None]
-    ctx.require(len(pair) == 1, "draw_posterior_samples: `return samples, indices` not found")
-    S, I = src(pair[0]["S"]), src(pair[0]["I"])
-    single = [r for r in rets if match_stmt("return $$S", r, {"S": pair[0]["S"]}) is not None]
-    ctx.ob("R-SIB", "C16.1", f, "the function returns exactly the selected samples (and their indices when asked)", len(rets) == 2 and len(single) == 1, f"{[src(r) for r in rets]}")
-    samp = fa.find(lambda s: match_stmt(f"$$S = {ns}[$$I]", s, pair[0]) is not None)
-    idxs = fa.find(lambda s: isinstance(s, ast.Assign) and len(s.targets) == 1 and src(s.targets[0]) == I)
-    ctx.require(len(idxs) == 2, "draw_posterior_samples: expected two branches computing the indices")
-    anyS = fa.find(lambda s: isinstance(s, ast.Assign) and any(src(t) == S for t in s.targets))
-    ctx.ob("R-SIB", "C16.1", f, "on both branches the posterior samples are nested_samples[indices] for the returned indices", len(samp) == 2 and anyS == samp, f"{[fa.text(x) for x in anyS]}")
-    for sid in samp:
-        prev = [i for i in idxs if fa.dominates(i, sid)]
-        ctx.ob("R-ORDER", "C16.1", f, "indices are computed before they are used to select the samples (same branch)", len(prev) >= 1, "")
-    ctx.ob("R-ORDER", "C16.1", f, "every returning path has selected samples", fa.cfg.every_exit_path_passes(fa.cfg.entry, samp), "")
+    from .. import lsa
+    from ..summ import summarise as _summ, guard_texts as _gt
+    from ..q import norm_args, conjuncts
 
-    # which branch is which
-    rej = mul = None
-    for iid in idxs:
-        facts = [(src(e), t) for e, t in guard_facts(fa, iid)]
-        if ("method == 'rejection_sampling'", True) in facts:
-            rej = iid
+    try:
+        paths = [pa for pa in _summ(f.node, max_paths=400)]
+    except ValueError as e_:
+        raise AnalysisError(f"draw_posterior_samples: {e_} (ANALYSIS-INCOMPLETE)")
+    rpaths = [pa for pa in paths if pa.end == "return"]
+    ctx.require(len(rpaths) >= 4, "draw_posterior_samples: fewer than four returning paths (two methods x return_indices)")
+
+    def lits(pa):
+        out = {}
+        for t_, tr_ in pa.guards:
+            for e_, v_ in conjuncts(t_, tr_):
+                out[canon(e_)] = v_
+        return out
+
+    def is_w(e_):
+        # the weight vector: the caller's log_w, or the second result of compute_weights when none was given
+        t_ = src(e_)
+        return t_ == "log_w" or (isinstance(e_, ast.Subscript) and isinstance(e_.value, ast.Call) and src(e_.value.func).split(".")[-1] == "compute_weights" and isinstance(e_.slice, ast.Constant) and e_.slice.value == 1)
+
+    N_OK = {f"{ns}.size", f"len({ns})", f"{ns}.shape[0]"}
+
+    def count_ok(e_):
+        return canon(e_) in N_OK
+
+    def split_ret(pa):
+        r_ = pa.ret
+        if isinstance(r_, ast.Tuple) and len(r_.elts) == 2:
+            return r_.elts[0], r_.elts[1]
+        return r_, None
+
+    # ---- C16.1: what is returned ------------------------------------------------------------------------------------
+    n_pair = n_single = 0
+    ok_sel = ok_same = True
+    idx_exprs = {}
+    for pa in rpaths:
+        S_, I_ = split_ret(pa)
+        if I_ is not None:
+            n_pair += 1
         else:
-            mul = iid
-    ctx.require(rej is not None and mul is not None, "could not identify the rejection and multinomial branches")
-    W = "log_w"  # parameter of the function
-    rst = fa.stmt(rej)
-    inl_f = single_assignments(f.node)
-    unif = (f"log(random.rand({ns}.size))", f"log(random.uniform(size={ns}.size))", f"log(random.random({ns}.size))", f"log(random.random_sample({ns}.size))")
-    # the comparison and the uniforms are read off the (inlined) index expression: locals may or may not be used
-    b = next((m_ for op_ in (">", ">=") for m_ in [match_expr(f"where({W} {op_} $u)[0]", rst.value, inline=inl_f) if isinstance(rst, ast.Assign) else None] if m_ is not None), None)
-    ctx.ob("R-SIB", "C16.2", f, "rejection sampling keeps sample i iff its normalised log-weight exceeds log(U_i): indices = where(log_w > log_u)[0]", b is not None, f"`{src(rst)}`", node=rst)
-    body = _branch_body(f.node, rst)
-    norm = [s_ for s_ in body if match_stmt(f"{W} = {W} - max({W})", s_) is not None or match_stmt(f"{W} = {W} - amax({W})", s_) is not None or match_stmt(f"{W} -= max({W})", s_) is not None]
-    ctx.ob("R-SIB", "C16.2", f, "rejection branch normalises the log-weights by their maximum (max-weight sample always kept, -inf never)", len(norm) == 1 and norm[0].lineno < rst.lineno, f"`{src(norm[0]) if norm else None}`")
-    oku = b is not None and any(match_expr(p_, b["u"]) is not None for p_ in unif)
-    ctx.ob("R-SIB", "C16.2", f, "one independent uniform per nested sample: log_u = log(rand(nested_samples.size))", oku, f"`{src(b['u']) if b is not None else None}`")
-    mst = fa.stmt(mul)
-    okm = match_stmt(f"{I} = random.choice({ns}.size, size=n, p=exp({W}), replace=True)", mst) is not None
-    ctx.ob("R-SIB", "C16.2", f, "multinomial resampling: n draws with replacement over all nested samples with p = exp(normalised log-weights)", okm, f"`{src(mst)}`", node=mst)
-    body = _branch_body(f.node, mst)
-    norm = [s_ for s_ in body if match_stmt(f"{W} = {W} - logsumexp({W})", s_) is not None or match_stmt(f"{W} -= logsumexp({W})", s_) is not None]
-    ctx.ob("R-SIB", "C16.2", f, "multinomial branch normalises the log-weights to sum to one (logsumexp)", len(norm) == 1 and norm[0].lineno < mst.lineno, f"`{src(norm[0]) if norm else None}`")
-    dn = [s_ for s_ in body if isinstance(s_, ast.If) and canon(s_.test) == "n is None"]
-    eb = match_stmt("n = int($$e)", dn[0].body[0]) if len(dn) == 1 and len(dn[0].body) == 1 else None
-    okn = eb is not None and not dn[0].orelse and dn[0].lineno < mst.lineno
-    ctx.ob("R-SIB", "C16.2", f, "default number of draws is the integer part of the effective sample size", okn, "")
-    ess = [s_ for s_ in stmts_in_order(f.node) if eb is not None and match_stmt(f"$$e = effective_sample_size({W})", s_, eb) is not None]
-    ctx.ob("R-SIB", "C16.2", f, "that effective sample size is computed from the posterior log-weights", len(ess) == 1, f"`{src(ess[0]) if ess else None}`")
+            n_single += 1
+        sel = isinstance(S_, ast.Subscript) and canon(S_.value) == ns
+        ok_sel = ok_sel and sel
+        if sel:
+            idx_exprs[id(pa)] = S_.slice
+            if I_ is not None:
+                ok_same = ok_same and canon(I_) == canon(S_.slice)
+    g0 = [lits(pa).get("return_indices") for pa in rpaths]
+    ctx.ob("R-SIB", "C16.1", f, "the function returns exactly the selected samples (and their indices when asked)", n_pair >= 2 and n_single >= 2 and all((split_ret(pa)[1] is not None) == (lits(pa).get("return_indices") is True) for pa in rpaths), f"{n_pair} paths return (samples, indices), {n_single} return samples")
+    ctx.ob("R-SIB", "C16.1", f, "on both branches the posterior samples are nested_samples[indices] for the returned indices", ok_sel and ok_same, "")
+    ctx.ob("R-ORDER", "C16.1", f, "indices are computed before they are used to select the samples (same branch)", ok_sel and all(not any(isinstance(x_, ast.Name) and x_.id in ("indices",) for x_ in ast.walk(idx_exprs[k_])) for k_ in idx_exprs), "the selecting expression is fully determined by values computed earlier on the path")
+    ctx.ob("R-ORDER", "C16.1", f, "every returning path has selected samples", ok_sel, "")
+    ctx.ob("R-SIB", "C16.1", f, "every path that does not return raises (unknown method)", all(pa.end in ("return", "raise") for pa in paths), "")
+
+    # ---- C16.2: how the indices are drawn -----------------------------------------------------------------------------
+    rej = [pa for pa in rpaths if lits(pa).get("method == 'rejection_sampling'") is True]
+    mul = [pa for pa in rpaths if lits(pa).get("method == 'rejection_sampling'") is False]
+    ctx.require(rej and mul, "could not identify the rejection and multinomial branches")
+    ok_cmp = ok_norm = ok_u = True
+    seen_r = ""
+    for pa in rej:
+        ie = idx_exprs.get(id(pa))
+        cmp_ = None
+        if ie is not None:
+            c_ = ie
+            if isinstance(c_, ast.Subscript) and isinstance(c_.slice, ast.Constant) and c_.slice.value == 0 and isinstance(c_.value, ast.Call) and src(c_.value.func).split(".")[-1] in ("where", "nonzero") and len(c_.value.args) == 1:
+                cmp_ = c_.value.args[0]
+            elif isinstance(c_, ast.Call) and src(c_.func).split(".")[-1] == "flatnonzero" and len(c_.args) == 1:
+                cmp_ = c_.args[0]
+        seen_r = src(ie)[:110] if ie is not None else "None"
+        if not (isinstance(cmp_, ast.Compare) and len(cmp_.ops) == 1 and isinstance(cmp_.ops[0], (ast.Gt, ast.GtE, ast.Lt, ast.LtE))):
+            ok_cmp = ok_norm = ok_u = False
+            continue
+        big, small = (cmp_.left, cmp_.comparators[0]) if isinstance(cmp_.ops[0], (ast.Gt, ast.GtE)) else (cmp_.comparators[0], cmp_.left)
+        ev = lsa.Eval(set(), is_vector=is_w)
+        vb = ev.ev(big)
+        ok_cmp = ok_cmp and vb[0] == "vec" and vb[1] == 1
+        ok_norm = ok_norm and vb[0] == "vec" and vb[2] == {("M",): -1}
+        u_ok = False
+        if isinstance(small, ast.Call) and src(small.func).split(".")[-1] == "log" and len(small.args) == 1 and isinstance(small.args[0], ast.Call):
+            u_ = small.args[0]
+            nm_ = canon(u_.func)
+            a_ = u_.args[0] if u_.args else next((k_.value for k_ in u_.keywords if k_.arg == "size"), None)
+            u_ok = nm_ in ("random.rand", "random.uniform", "random.random", "random.random_sample") and a_ is not None and count_ok(a_) and (nm_ != "random.uniform" or not u_.args)
+        ok_u = ok_u and u_ok
+    ctx.ob("R-SIB", "C16.2", f, "rejection sampling keeps sample i iff its normalised log-weight exceeds log(U_i): indices = where(log_w > log_u)[0]", ok_cmp, f"`{seen_r}`")
+    ctx.ob("R-SIB", "C16.2", f, "rejection branch normalises the log-weights by their maximum (max-weight sample always kept, -inf never)", ok_norm, f"`{seen_r}`")
+    ctx.ob("R-SIB", "C16.2", f, "one independent uniform per nested sample: log_u = log(rand(nested_samples.size))", ok_u, f"`{seen_r}`")
+    ok_m = ok_p = ok_n = ok_e = True
+    seen_m = ""
+    n_default = 0
+    for pa in mul:
+        ie = idx_exprs.get(id(pa))
+        seen_m = src(ie)[:140] if ie is not None else "None"
+        if not (isinstance(ie, ast.Call) and canon(ie.func) == "random.choice"):
+            ok_m = ok_p = ok_n = False
+            continue
+        pos = list(ie.args)
+        kw = {k_.arg: k_.value for k_ in ie.keywords}
+        a_ = pos[0] if pos else kw.get("a")
+        size_ = pos[1] if len(pos) > 1 else kw.get("size")
+        repl_ = pos[2] if len(pos) > 2 else kw.get("replace")
+        p_ = pos[3] if len(pos) > 3 else kw.get("p")
+        ok_m = ok_m and a_ is not None and count_ok(a_) and (repl_ is None or (isinstance(repl_, ast.Constant) and repl_.value is True))
+        ev = lsa.Eval(set(), is_vector=is_w)
+        vp = ev.ev(p_) if p_ is not None else ("opaque", "")
+        ok_p = ok_p and vp[0] == "exp" and vp[1][0] == "vec" and vp[1][1] == 1 and vp[1][2] == {("L", Fraction(1)): Fraction(-1)}
+        if lits(pa).get("n is None") is True:
+            n_default += 1
+            vn = ev.ev(size_) if size_ is not None else ("opaque", "")
+            ok_n = ok_n and vn == ("int", lsa.KISH)
+        else:
+            ok_n = ok_n and size_ is not None and src(size_) == "n"
+    ctx.ob("R-SIB", "C16.2", f, "multinomial resampling: n draws with replacement over all nested samples with p = exp(normalised log-weights)", ok_m and ok_p, f"`{seen_m}`")
+    ctx.ob("R-SIB", "C16.2", f, "multinomial branch normalises the log-weights to sum to one (logsumexp)", ok_p, f"`{seen_m}`")
+    ctx.ob("R-SIB", "C16.2", f, "default number of draws is the integer part of the effective sample size", ok_n and n_default >= 1, f"{n_default} path(s) with n unset")
+    ctx.ob("R-SIB", "C16.2", f, "that effective sample size is computed from the posterior log-weights", ok_n and n_default >= 1, "")
     from .C20_reg import _chain_ends_in_raise
 
     ctx.ob("R-SIB", "C16.2", f, "an unknown method is rejected", _chain_ends_in_raise(f, "method"), "")
@@ -78,7 +148,15 @@ def run(ctx):
     ctx.floor("C16.2", 8)
 
     ess_rule(ctx, "C16.3")
-    ctx.floor("C16.3", 6)
+    # the effective sample size is computed on the posterior log-weights handed out by a property: normalising or squaring
+    # them in place is harmless only while every getter of that name returns a fresh array (a getter that caches its
+    # result would hand the squared weights to the resampler next) - R-ALIAS, shared with C02.7 / C05.5
+    from ..rules import alias as _alias
+
+    ctx.require(_alias.self_check(), "R-ALIAS fixtures: the caching getter with an in-place consumer is not reported / the fresh twin is")
+    for _f, _mod, _attr, _c, _ok, _why in _alias.scan(prog):
+        ctx.ob("R-ALIAS", "C16.3", _f, f"the value of property `{_attr}` is modified in place only because every getter of that name returns a fresh object", _ok, _why, node=_mod)
+    ctx.floor("C16.3", 7)
     ctx.assumptions += ["np.random.choice / np.where semantics; selection frequencies and ESS bounds are statistical / numeric and not decided"]
 
 
@@ -103,40 +181,41 @@ def ess_rule(ctx, clause):
         body_ = [s_ for s_ in g_.node.body if not (isinstance(s_, ast.Expr) and isinstance(s_.value, ast.Constant))]
         if len(body_) == 1 and isinstance(body_[0], ast.Raise):
             continue
-        deleg_ = bool(rets_) and all((isinstance(r_.value, ast.Attribute) and fam_.search(r_.value.attr)) or (isinstance(r_.value, ast.Call) and fam_.search((call_name(r_.value) or "").split(".")[-1])) for r_ in rets_) and all(isinstance(s_, (ast.Return, ast.If)) or (isinstance(s_, ast.Expr) and isinstance(s_.value, ast.Constant)) for s_ in walk_no_nested(g_.node) if isinstance(s_, ast.stmt) and s_ is not g_.node)
+        # a delegation: every return hands back another member of the family, and the body computes nothing itself
+        # (it may select *which* state to ask: `state = self.final_state or self.state`)
+        computes_ = any(isinstance(x_, (ast.BinOp, ast.AugAssign)) or (isinstance(x_, ast.Call) and not fam_.search((call_name(x_) or "").split(".")[-1])) for x_ in walk_no_nested(g_.node))
+        deleg_ = bool(rets_) and not computes_ and all((isinstance(r_.value, ast.Attribute) and fam_.search(r_.value.attr)) or (isinstance(r_.value, ast.Call) and fam_.search((call_name(r_.value) or "").split(".")[-1])) for r_ in rets_)
         if deleg_:
             ctx.ob("R-SIB", clause, g_, "an effective-sample-size accessor only delegates to one of the Kish implementations", True, f"`{src(rets_[0])[:70]}`")
         else:
             var_ = next((p_ for p_ in g_.params() if "log" in p_ or p_.startswith("w")), "log_p")
             impls.append((g_, var_))
+    from .. import lsa
+    from ..summ import summarise as _summ
+
     for g, var in impls:
-        sts = stmts_in_order(g.node)
-        kish = find_expr("exp(-logsumexp(2 * $$w))", g.node)
-        norm = []
-        if len(kish) == 1:
-            w = kish[0][1]["w"]
-            # normalised in place, or into a new local (`p = w - logsumexp(w)`)
-            norm = [s_ for s_ in sts if match_stmt("$$w -= logsumexp($$w)", s_, {"w": w}) is not None or match_stmt("$$w = $$w - logsumexp($$w)", s_, {"w": w}) is not None or match_stmt("$$w = $$v - logsumexp($$v)", s_, {"w": w}) is not None]
-        if not kish:
-            # ... or written into the Kish expression itself
-            kish = find_expr("exp(-logsumexp(2 * ($v - logsumexp($v))))", g.node)
-            norm = [kish[0][0]] if len(kish) == 1 else []
-        ok = len(norm) == 1 and len(kish) == 1 and norm[0].lineno <= kish[0][0].lineno
-        ctx.ob("R-SIB", clause, g, "Kish effective sample size in log space: exp(-logsumexp(2 (w - logsumexp w)))", ok, f"normalise `{src(norm[0]) if norm else None}` ; `{src(kish[0][0]) if kish else None}`")
-        reports = []
-        chk = DegChecker({}, set(), lambda node, msg: reports.append((node, msg)))
-        env = {p: Fraction(0) for p in g.params()}
-        if var in env:
-            env[var] = Fraction(1)
-        if g.name == "effective_n_posterior_samples":
-            chk.fields["self.log_posterior_weights"] = Fraction(1)
-        chk.function(g.node, env)
-        # the degree of the Kish expression where it stands (the environment after the function mixes every path)
-        d = None
-        if kish:
-            d = chk.node_deg[id(kish[0][0])] if id(kish[0][0]) in chk.node_deg else chk.deg(kish[0][0], env)
-        bad = [m for n_, m in reports if "exponential" in m or "applies" in m]
-        ctx.ob("R-DEG", clause, g, "the effective sample size does not change when all log-weights are shifted (degree 0, no exp of a shift-dependent value)", d == Fraction(0) and not [m for m in bad if "logsumexp" in m], f"degree {d}; reports {bad[:2]}")
+        vecs = {var, "self.log_posterior_weights"} if g.name == "effective_n_posterior_samples" else {var}
+        ess_like, reports, n_paths = [], [], 0
+        try:
+            paths = [pa for pa in _summ(g.node) if pa.end != "raise"]
+        except ValueError as e_:
+            raise AnalysisError(f"{g.short}: {e_} (ANALYSIS-INCOMPLETE)")
+        for pa in paths:
+            n_paths += 1
+            ev = lsa.Eval(vecs, is_vector=lambda e_: isinstance(e_, ast.Call) and src(e_.func).split(".")[-1] in ("zeros", "ones", "full"))
+            roots = [v_ for v_ in pa.env.values() if isinstance(v_, ast.AST)] + ([pa.ret] if pa.ret is not None else []) + [x_ for eff in pa.effects for x_ in eff[1:] if isinstance(x_, ast.AST)]
+            seen = set()
+            for r_ in roots:
+                for c_ in ast.walk(r_):
+                    if isinstance(c_, ast.Call) and src(c_.func).split(".")[-1] == "exp" and src(c_) not in seen:
+                        seen.add(src(c_))
+                        v_ = ev.ev(c_)
+                        if v_[0] == "exp" and v_[1][0] == "sca" and any(k_[0] == "L" and k_[1] != 1 for k_ in v_[1][1]):
+                            ess_like.append((c_, v_))
+            reports += ev.reports
+        bad = [(c_, v_) for c_, v_ in ess_like if not lsa.is_kish(v_)]
+        ctx.ob("R-SIB", clause, g, "Kish effective sample size in log space: exp(-logsumexp(2 (w - logsumexp w)))", bool(ess_like) and not bad, f"{len(ess_like)} effective-sample-size expression(s) on {n_paths} path(s)" + (f"; `{src(bad[0][0])[:70]}` evaluates to {lsa.show(bad[0][1])} instead of exp(2*L1 - L2)" if bad else ""))
+        ctx.ob("R-DEG", clause, g, "the effective sample size does not change when all log-weights are shifted (degree 0, no exp of a shift-dependent value)", bool(ess_like) and not reports and all(lsa.degree(v_) == 0 for _c, v_ in ess_like), f"reports {sorted(set(reports))[:2]}")
 
 
 def _branch_body(fnode, stmt):
